@@ -87,8 +87,9 @@ class New(cssutils.util._BaseClass):
             # handle next time
             return
 
-        if self._PREFIX is not None:
+        if self._PREFIX is not None and typ != 'COMMENT':
             # as saved from before and reset to None
+            # (not by a comment: the prefix waits for its name)
             prefix, self._PREFIX = self._PREFIX, None
         elif typ == 'universal' and '|' in val:
             # val == *|* or prefix|*
@@ -772,8 +773,23 @@ class Selector(cssutils.util.Base2):
         "::" + IDENT, "::" + FUNCTION -> pseudo-element
         """
         tokens = []
+        # comments met between a namespace prefix and its name: the name
+        # belongs to the prefix, the comments follow it
+        held, flush = [], False
         for t in tokenizer:
             typ, val, lin, col = t
+            if flush:
+                tokens.extend(held)
+                held, flush = [], False
+            if (
+                typ == 'COMMENT'
+                and tokens
+                and self._type(tokens[-1]) == 'namespace_prefix'
+            ):
+                held.append(t)
+                continue
+            flush = bool(held)
+
             if val == ':' and tokens and self._tokenvalue(tokens[-1]) == ':':
                 # combine ":" and ":"
                 tokens[-1] = (typ, '::', tokens[-1][2], tokens[-1][3])
@@ -860,6 +876,7 @@ class Selector(cssutils.util.Base2):
             else:
                 tokens.append(t)
 
+        tokens.extend(held)
         return iter(tokens)
 
     selectorText = property(
